@@ -126,6 +126,11 @@ impl MmrSuccessorProof {
             return false;
         }
 
+        let num_old_peaks: u32 = old_mmra.peaks().len().try_into().unwrap();
+        if old_mmra.num_leafs().count_ones() != num_old_peaks {
+            return false;
+        }
+
         let mut ap_index = 0;
         let mut running_leaf_count = 0;
         let strip_top_bit = |num: u64| (num.ilog2(), num - (1 << num.ilog2()));
